@@ -197,6 +197,19 @@ func (*c09) Gen(rng *RNG, tier string) []Case {
 		"scope union w a u", "scope isunlimited w", "scope union x u a", "scope isunlimited x", "scope str u", "scope iter u",
 		"scope len e", "scope isempty e", "scope isempty u", "scope equal u u", "scope equal u e", "scope len u",
 	}})
+	// a union that adds nothing returns its receiver, text included - also when the argument holds only SOME of the receiver's
+	// actions on a repository they share (seed C09-13: "masks differ" taken for "something was added")
+	for _, pr := range [][2]string{
+		{"repository:foo:push,pull other", "repository:foo:pull"},
+		{"repository:foo:push,pull other", "repository:foo:push"},
+		{"repository:foo:push,delete,pull repository:bar:pull", "repository:foo:delete,push"},
+		{"other repository:foo:pull,push", "repository:foo:pull other"},
+		{"repository:b:pull repository:a:push,pull", "repository:a:pull"},
+		{"repository:foo:pull,push,purge", "repository:foo:purge"},
+	} {
+		cases = append(cases, Case{Tag: "directed:union-noop-subset-actions", Lines: []string{
+			"scope parse a " + tok(pr[0]), "scope parse b " + tok(pr[1]), "scope str a", "scope union u a b", "scope str u", "scope equal u a", "scope iter u"}})
+	}
 	// random large universes, permutations and duplicates, parse strings
 	types := []string{"repository", "registry", "foo", "repo", "", "repository2", "Repository", "REGISTRY"}
 	ress := []string{"", "a", "b", "a/b", "catalog", "zz", "A", "a b", "é", "\xff", "a:b", "x,y", "Catalog", "CATALOG"}
